@@ -418,6 +418,7 @@ func main() {
 	defer rw.Flush()
 	sc := bufio.NewScanner(f)
 	sc.Buffer(make([]byte, 1<<20), 1<<26)
+	bad := 0
 	for sc.Scan() {
 		line := bytes.TrimSpace(sc.Bytes())
 		if len(line) == 0 {
@@ -432,5 +433,13 @@ func main() {
 		b, _ := json.Marshal(r)
 		rw.Write(b)
 		rw.WriteByte('\n')
+		if len(r.Wedged) > 0 || r.Panic != "" {
+			bad++
+		}
+		if bad >= 5 {
+			// several participants never returned / panicked: every further schedule would cost another drain
+			// time-out; what was observed so far is reported (the verdict is already decided)
+			break
+		}
 	}
 }
